@@ -129,7 +129,10 @@ func whichAppend(rt reflect.Type, omitEmpty bool) (f appendFunc, af appendFunc) 
 	return
 }
 
-func newFinfo(f *reflect.StructField, key string, omitEmpty, asString, pretty, embedded bool) *finfo {
+// newFinfo creates the plan for a field. The omitEmpty flag is for the field
+// itself (option or tag) while omitAll is the option that also applies to the
+// members of the field type.
+func newFinfo(f *reflect.StructField, key string, omitEmpty, omitAll, asString, pretty, embedded bool) *finfo {
 	fi := finfo{
 		rt:     f.Type,
 		key:    key,
@@ -208,7 +211,7 @@ func newFinfo(f *reflect.StructField, key string, omitEmpty, asString, pretty, e
 			fi.iAppend = appendString
 		}
 	case reflect.Struct:
-		fi.elem = getTypeStruct(fi.rt, true, omitEmpty)
+		fi.elem = getTypeStruct(fi.rt, true, omitAll)
 		fi.Append = appendJustKey
 		fi.iAppend = appendJustKey
 	case reflect.Ptr:
@@ -217,7 +220,7 @@ func newFinfo(f *reflect.StructField, key string, omitEmpty, asString, pretty, e
 			et = et.Elem()
 		}
 		if et.Kind() == reflect.Struct {
-			fi.elem = getTypeStruct(et, false, omitEmpty)
+			fi.elem = getTypeStruct(et, false, omitAll)
 		}
 		if omitEmpty {
 			fi.Append = appendPtrNotEmpty
@@ -242,7 +245,7 @@ func newFinfo(f *reflect.StructField, key string, omitEmpty, asString, pretty, e
 			et = et.Elem()
 		}
 		if et.Kind() == reflect.Struct {
-			fi.elem = getTypeStruct(et, embedded, omitEmpty)
+			fi.elem = getTypeStruct(et, embedded, omitAll)
 		}
 		if omitEmpty {
 			fi.Append = appendSliceNotEmpty
